@@ -53,6 +53,16 @@ CLAIMS['C05'] = ('proof', 'Lean 4 theorems on a model of the grid-level loops (w
     'every call (global slice, global parameter indices) is compared exactly with the model call list. Independent oracle: initial distribution, each operator on random fields and two '
     'full driver steps on every listed process grid vs the serial run (bit-identity recorded, rounding-level agreement required).',
     NOTE_COMMON + ' Kernels are uninterpreted in the theorems; layout changes enter through C01/C03; arrival orders through C06.', 'DESIGN.md 4/C05')
+CLAIMS['C10'] = ('proof', 'Lean 4 theorems over an arbitrary ordered field on a transcription of the flux-surface step + exact-rational correspondence with the real FluxSurfaceAdvection.step',
+    'flux_step_formula (the two loops compute sum_k c_k S_{(i+s_k) mod nz}(pts)), stencil_centred, lagrange_weights_are_basis (both np.where branches = Mathlib Lagrange.basis), '
+    'lagrange_weights_sum_one, lagrange_on_node, flux_preserves_constants, flux_linear(_coeffs), flux_commutes_z_shift, flux_exact_shift; spline interpolation of the theta rows and '
+    'b_z / iota arithmetic are contract inputs measured each run. The model runs at Q on the floats the code used and is compared entry-wise (64 eps x condition scale); independent '
+    'numpy/scipy oracle of the stated formula and its algebraic consequences on the real code.', NOTE_COMMON, 'DESIGN.md 4/C10')
+CLAIMS['C13'] = ('proof', 'Lean 4 theorems over an arbitrary field on a transcription of ParallelGradient.parallel_gradient + exact-rational correspondence',
+    'pargrad_regimes_eq_mod (all three index regimes address row (i-s) mod nz, numpy negative wrap included), pargrad_three_loops_eq_one, pargrad_formula, pargrad_refused_iff, '
+    'pargrad_linear(_coeffs), weights_sum_zero, pargrad_constants_zero, pargrad_fieldline_constant_zero, pargrad_commutes_z_shift, stencil_symmetric_even_order, stencil_odd_order, '
+    'fd_exact_for_polynomials_partial, fd_truncation_bound; the analytic convergence clause stays a stated-only def (fd_converges_with_order_statement) and is measured as a test. '
+    'FD weights from numpy.linalg.solve enter as the moment-system contract whose residual is measured exactly.', NOTE_COMMON, 'DESIGN.md 4/C13')
 PENDING = {
 }
 ALL = ['C%02d' % i for i in range(1, 21)]
